@@ -109,14 +109,33 @@ def stale_configuration(ctx, P, view):
                                       "processor-sharing node it keeps the value for a node with server objects" % t.attr, loc(x))
 
 
+def _start_condition(P, view, cls, fn, want, ob, label):
+    """the condition under which a path of fn starts a service (sets <x>.with_server = True) must be exactly `want`: every starting path implies it and
+    every other path implies its negation.  -> None, or the text of the offending path condition"""
+    w = Walker(P, view, keep=lambda e: e.kind == "guard" or (e.kind == "assign" and e.d["target"].endswith(".with_server") and e.d["value"] == "True"),
+               track=lambda t, f: True, inline=rules.new_helper)
+    n = 0
+    for st in w.paths_of(cls, fn):
+        if st.status == "raise":
+            continue
+        n += 1
+        starts = [i for i, e in enumerate(st.events) if e.kind == "assign"]
+        gs = [e for e in (st.events[:starts[0]] if starts else st.events) if e.kind == "guard"]
+        pcs = [e.d["formula"] if e.pol else guards.neg(e.d["formula"]) for e in gs]
+        pc = ("and", tuple(pcs)) if pcs else ("const", True)
+        ob.ok("%s:%s:%s" % (label, "start" if starts else "wait", guards.show(pc)))
+        okk = guards.implies(pc, want if starts else guards.neg(want))[0]
+        if not okk:
+            return "%s under %s" % ("start" if starts else "no start", guards.show(pc))
+    return None if n else "?"
+
+
 def capacity(ctx, P, view):
     ob = ctx.ob("PSCAP", "newcomer starts iff population <= ps_capacity (population already includes it); at a departure the customer at index ps_capacity - 1 starts iff population >= ps_capacity")
     cls, fn = view.method("begin_service_if_possible_accept")
-    ifs = [x for x in rules.walk(P, view, fn) if isinstance(x, ast.If) and "ps_capacity" in unparse(x.test)]
-    f = guards.norm(ifs[0].test, unparse) if ifs else None
-    ob.ok("accept-guard", guards.show(f) if f else "?")
-    if f != ("not", ("lt", "self.ps_capacity", "self.number_of_individuals")):
-        ctx.violation(ob, "R5.ps-capacity", "PSNode.begin_service_if_possible_accept", unparse(ifs[0].test) if ifs else "?", "ps-capacity-guard",
+    bad = _start_condition(P, view, cls, fn, ("not", ("lt", "self.ps_capacity", "self.number_of_individuals")), ob, "accept-guard")
+    if bad:
+        ctx.violation(ob, "R5.ps-capacity", "PSNode.begin_service_if_possible_accept", bad, "ps-capacity-guard",
                       "a newcomer shares the server iff number_of_individuals <= ps_capacity (at most the sharing capacity are served at once)", loc(fn))
     # population already counts the newcomer: Node.accept increments before dispatch
     acls, afn = view.method("accept")
@@ -128,11 +147,9 @@ def capacity(ctx, P, view):
             ctx.violation(ob, "R5.ps-capacity", "%s.accept" % acls.name, " -> ".join(x.text for x in st.events), "population-not-counted-before-test",
                           "the PS capacity test `<=` assumes the newcomer is already counted in number_of_individuals", loc(afn), rules.witness(st))
     cls, fn = view.method("begin_service_if_possible_release")
-    ifs = [x for x in rules.walk(P, view, fn) if isinstance(x, ast.If) and "ps_capacity" in unparse(x.test)]
-    f = guards.norm(ifs[0].test, unparse) if ifs else None
-    ob.ok("release-guard", guards.show(f) if f else "?")
-    if f != ("not", ("lt", "self.number_of_individuals", "self.ps_capacity")):
-        ctx.violation(ob, "R5.ps-capacity", "PSNode.begin_service_if_possible_release", unparse(ifs[0].test) if ifs else "?", "ps-capacity-guard",
+    bad = _start_condition(P, view, cls, fn, ("not", ("lt", "self.number_of_individuals", "self.ps_capacity")), ob, "release-guard")
+    if bad:
+        ctx.violation(ob, "R5.ps-capacity", "PSNode.begin_service_if_possible_release", bad, "ps-capacity-guard",
                       "after a departure a waiting customer starts iff number_of_individuals >= ps_capacity (someone is still waiting)", loc(fn))
     # who starts: the customer whose service_start_date is set on the release path (a local or a helper's parameter is read through)
     w = Walker(P, view, keep=lambda e: e.kind == "assign" and e.d["target"].endswith(".service_start_date"), inline=rules.new_helper)
@@ -190,15 +207,24 @@ def rate(ctx, P, view):
     var = unparse(loops[0].target) if loops else "ind"
     # roles are found by data flow, not by name
     share = None          # the local subtracted from time_left
+    direct = []           # ... or the expressions subtracted directly (`ind.time_left -= <work>` in each branch)
     for x in ast.walk(fn):
-        if isinstance(x, ast.AugAssign) and unparse(x.target) == var + ".time_left" and isinstance(x.op, ast.Sub) and isinstance(x.value, ast.Name):
-            share = x.value.id
+        sub = None
+        if isinstance(x, ast.AugAssign) and unparse(x.target) == var + ".time_left" and isinstance(x.op, ast.Sub):
+            sub = x.value
         if isinstance(x, ast.Assign) and unparse(x.targets[0]) == var + ".time_left" and isinstance(x.value, ast.BinOp) and isinstance(x.value.op, ast.Sub) \
-                and unparse(x.value.left) == var + ".time_left" and isinstance(x.value.right, ast.Name):
-            share = x.value.right.id
-    if share is None:
+                and unparse(x.value.left) == var + ".time_left":
+            sub = x.value.right
+        if isinstance(sub, ast.Name):
+            share = sub.id
+        elif sub is not None:
+            direct.append(sub)
+    if share is None and not direct:
         problems.append(("time-left", "time_left must be reduced by exactly the credited work"))
-    period = [k for k, v in asg.items() if len(v) == 1 and unparse(v[0].value).replace(" ", "") == "self.simulation.current_time-%s.date_last_update" % var]
+    ptxt = "self.simulation.current_time - %s.date_last_update" % var
+    period = [k for k, v in asg.items() if len(v) == 1 and unparse(v[0].value).replace(" ", "") == ptxt.replace(" ", "")]
+    if not period and any(unparse(y) == ptxt for d_ in direct + [v_.value for v_ in asg.get(share or "?", [])] for y in ast.walk(d_)):
+        period = [ptxt]         # the period is written where it is used
     if len(period) != 1:
         problems.append(("period", "the elapsed period must be now - ind.date_last_update"))
     nxt = [k for k, v in asg.items() if len(v) == 1 and unparse(v[0].value).replace(" ", "") in ("min(self.number_of_individuals,self.ps_capacity)", "min(self.ps_capacity,self.number_of_individuals)")]
@@ -206,7 +232,7 @@ def rate(ctx, P, view):
         problems.append(("occupancy", "the sharing level is min(population, ps_capacity)"))
     period, nxt = (period[0] if period else "?"), (nxt[0] if nxt else "?")
     # progress
-    shares = [x.value for x in asg.get(share or "?", [])]
+    shares = [x.value for x in asg.get(share or "?", [])] if share is not None else direct
     prog = [v for v in shares if not isinstance(v, ast.Constant)]
     zero = [v for v in shares if isinstance(v, ast.Constant) and v.value == 0]
     rate_num = rate_den = None
